@@ -174,6 +174,17 @@ def judge(cases, runs):
                 if sorted(map(str, posted)) != sorted(map(str, tasks.keys())):
                     viol.append((ci, sd, "default scheduler: posted %s ran %s" % (posted, list(tasks.keys()))))
                 continue
+            # "every task posted before abort is either run or discarded by abort": a task whose post() had returned before an abort()
+            # began and that never started must have been let go of (its closure destroyed) during the run - not kept in a queue
+            # that nobody will ever look at again
+            dropped = set(str(r[4]) for r in ob["ev"] if r[3] == "task-drop")
+            post_ret = {str(r[4][2]): pos for pos, r in enumerate(ob["ev"]) if r[3] == "ret" and r[4][0] in ("post", "post-guarded")}
+            aborts = [pos for pos, r in enumerate(ob["ev"]) if r[3] == "call" and r[4][0] == "abort"]
+            abort_rets = [pos for pos, r in enumerate(ob["ev"]) if r[3] == "ret" and r[4][0] == "abort"]
+            if aborts and len(abort_rets) == len(aborts):
+                kept = [t for t, pos in post_ret.items() if pos < aborts[-1] and t not in [str(x) for x in tasks] and t not in dropped]
+                if kept:
+                    viol.append((ci, sd, "task(s) %s were posted before an abort, never ran and were never discarded (their closures are still owned by the scheduler at quiescence)" % sorted(kept)))
             wtids = set(v[2] for v in tasks.values())
             if len(wtids) > 1:
                 viol.append((ci, sd, "tasks ran on more than one thread: %s" % sorted(wtids)))
